@@ -476,11 +476,13 @@ static int addLeaf(KSI_TreeBuilder *builder, KSI_DataHash *hsh, KSI_MetaData *me
 	KSI_ERR_clearErrors(builder->ctx);
 
 
-	if (builder->maxTreeLevel > 0) {
+	{
 		unsigned short actualInputHeight = 0;
+		/* Without a configured maximum the root level must still fit into one byte. */
+		unsigned limit = (builder->maxTreeLevel > 0) ? (unsigned)builder->maxTreeLevel : 0xff;
 
 		/* Let's not waste time and effort. */
-		if (level > builder->maxTreeLevel) {
+		if ((unsigned)level > limit) {
 			KSI_pushError(builder->ctx, res = KSI_BUFFER_OVERFLOW, "Input level greater than maximum tree height.");
 			goto cleanup;
 		}
@@ -488,7 +490,7 @@ static int addLeaf(KSI_TreeBuilder *builder, KSI_DataHash *hsh, KSI_MetaData *me
 		res = levelWithOverhead(builder, (unsigned short)level, &actualInputHeight);
 		if (res != KSI_OK) goto cleanup;
 
-		if (calculateHighestLevel(builder, actualInputHeight) > (unsigned)builder->maxTreeLevel) {
+		if (calculateHighestLevel(builder, actualInputHeight) > limit) {
 			KSI_pushError(builder->ctx, res = KSI_BUFFER_OVERFLOW, "The maximum height passed.");
 			goto cleanup;
 		}
